@@ -239,6 +239,23 @@ example : evalNested env0 dbL (saRenderN n1) = [[some 1, some 1]] := by decide +
 example : okStmt (.update 0 [(0, .ar .add (.col 0) (.int 1))] (some (.not onEq))) = true := by
   decide +kernel
 
+/-! ### [review] the specification semantics `eval` on the textbook three-valued facts
+
+`Render.eval` / `evalQuery` is the semantics BOTH sides of `C06_partial` are read in; no correspondence stream compares it with
+the reference engine (the driver prints rendered text only).  These pins at least fix its reading of the classic NULL cases
+(values as sqlite3 gives them: `NOT NULL`, `NULL AND 0`, `NULL OR 1`, `NULL = NULL`, `NULL IS NULL`, `3 IN (1, NULL)`,
+`3 NOT IN (1, NULL)`, `3 NOT BETWEEN 1 AND NULL`, `7 / 0`, `-7 / 2`). -/
+
+-- [review]
+example :
+    let ev := eval env0 (fun _ => none)
+    ev (.not (.col 0)) = none ∧ ev (.and (.col 0) (.int 0)) = some 0 ∧ ev (.or (.col 0) (.int 1)) = some 1
+    ∧ ev (.cmp .eq .null .null) = none ∧ ev (.cmp .is .null .null) = some 1
+    ∧ ev (.inl false (.int 3) (.tcons (.int 1) (.tcons .null .tnil))) = none
+    ∧ ev (.inl true (.int 3) (.tcons (.int 1) (.tcons .null .tnil))) = none
+    ∧ ev (.btw true (.int 3) (.int 1) .null) = none
+    ∧ ev (.ar .div (.int 7) (.int 0)) = none ∧ ev (.ar .div (.int (-7)) (.int 2)) = some (-3) := by decide
+
 /-! ## T6.2 — operand grouping -/
 
 /-- operators of the method table that are outside the grouping theorem: `in` / `not in` (list
